@@ -9,6 +9,8 @@ from props import fam_num as F
 ORACLE_LIKE = ('prec', 'tostr')      # a model mismatch here is a printed text outside the half-unit bound
 
 
+MANIFEST = {'technique': 'Coq proof (acceptance set of as_number = CIF number grammar, integer readers = strtol, buffer bounds, nearest-even rounding) + three-way differential check on IEEE bit patterns (gemmi / extracted model / glibc) under two locales', 'text': 'Theorems: for every string and every digit-to-double conversion, cif::as_number returns the conversion of the CIF decimal value exactly when the string is a CIF number (with optional s.u.) and NaN otherwise (snapshot behaviour refuted: "+-1", "1.5()"); string_to_int / read_int / simple_atoi / no_sign_atoi equal strtol on every string they accept and never overflow intermediates when the result fits int; to_str_prec<P> fits its buffer for P <= 6, |d| < 1e8 (16 bytes refuted for P = 6); the reference rounding is round-to-nearest-even (half-ulp bound _partial). Three-way comparison of gemmi, the extracted model and glibc strtod/strtol on bit patterns over grammar-derived strings, near misses, halfway cases, subnormals, overflow, in the C locale and in a generated comma-decimal locale; print->parse half-unit oracle for to_str/to_str_prec; snprintf_z contract.', 'note': 'Trusted: Coq kernel; extraction; harness. No axioms. fast_float digit conversion and stb_sprintf digit generation are not modelled (as_number theorems quantify over every conversion; the executable model is compared with glibc). Strings shorter than 2^28 bytes.'}
+
 def gen_lines(rng, n_num, n_int, n_print, bufs):
     lines = []
     # character tables: exhaustive
